@@ -118,6 +118,7 @@ func main() {
 		collectSubmitters(p)
 		if p.name == "router" {
 			collectConsts(p)
+			collectYieldKeep(p)
 		}
 	}
 	for _, p := range pkgs {
@@ -1384,6 +1385,289 @@ func collectConsts(p *pkgInfo) {
 	}
 }
 
+// yieldKeep: does dealer.syncYield keep the call in the dealer's tables when it
+// asks dealer.yield for a retry?  "Some true" / "Some false" / "None" (the
+// shape of the code is not one this reading decides) and a description.
+//
+// Reading: the clean-up of a final YIELD is a deferred function literal that
+// deletes from d.calls / d.invocations / d.invocationByCall.  It must be
+// guarded by a local boolean flag, and on every path that returns true (the
+// "again" result) the last assignment to that flag, looked up through the
+// enclosing blocks, must make the guard skip the deletes.
+var yieldKeep, yieldKeepWhy = "None", "router.(*dealer).syncYield not found"
+
+var callTables = map[string]bool{"calls": true, "invocations": true, "invocationByCall": true}
+
+func isTableDelete(n ast.Node) bool {
+	c, ok := n.(*ast.CallExpr)
+	if !ok || len(c.Args) != 2 {
+		return false
+	}
+	if id, ok := c.Fun.(*ast.Ident); !ok || id.Name != "delete" {
+		return false
+	}
+	sel, ok := c.Args[0].(*ast.SelectorExpr)
+	return ok && callTables[sel.Sel.Name]
+}
+
+func containsTableDelete(n ast.Node) bool {
+	found := false
+	ast.Inspect(n, func(x ast.Node) bool {
+		if x != nil && isTableDelete(x) {
+			found = true
+		}
+		return !found
+	})
+	return found
+}
+
+// flagCond reads a condition that is a flag or its negation.
+func flagCond(e ast.Expr) (string, bool, bool) {
+	switch c := e.(type) {
+	case *ast.Ident:
+		return c.Name, true, true
+	case *ast.ParenExpr:
+		return flagCond(c.X)
+	case *ast.UnaryExpr:
+		if c.Op == token.NOT {
+			if n, v, ok := flagCond(c.X); ok {
+				return n, !v, true
+			}
+		}
+	}
+	return "", false, false
+}
+
+func boolLit(e ast.Expr) (bool, bool) {
+	if id, ok := e.(*ast.Ident); ok && (id.Name == "true" || id.Name == "false") {
+		return id.Name == "true", true
+	}
+	return false, false
+}
+
+// assignsFlag: 1 = the statement itself assigns a boolean literal to the flag
+// (value in v), 2 = it (or something nested in it) assigns the flag in a way
+// this reading does not follow, 0 = it does not touch the flag.
+func assignsFlag(st ast.Stmt, flag string) (int, bool) {
+	switch a := st.(type) {
+	case *ast.AssignStmt:
+		for i, l := range a.Lhs {
+			if id, ok := l.(*ast.Ident); ok && id.Name == flag {
+				if len(a.Lhs) == len(a.Rhs) {
+					if v, ok := boolLit(a.Rhs[i]); ok {
+						return 1, v
+					}
+				}
+				return 2, false
+			}
+		}
+		return 0, false
+	case *ast.DeclStmt:
+		if gd, ok := a.Decl.(*ast.GenDecl); ok {
+			for _, sp := range gd.Specs {
+				vs, ok := sp.(*ast.ValueSpec)
+				if !ok {
+					continue
+				}
+				for i, n := range vs.Names {
+					if n.Name != flag {
+						continue
+					}
+					if len(vs.Values) == 0 {
+						return 1, false // zero value
+					}
+					if i < len(vs.Values) {
+						if v, ok := boolLit(vs.Values[i]); ok {
+							return 1, v
+						}
+					}
+					return 2, false
+				}
+			}
+		}
+		return 0, false
+	}
+	touched := false
+	ast.Inspect(st, func(x ast.Node) bool {
+		switch a := x.(type) {
+		case *ast.AssignStmt:
+			for _, l := range a.Lhs {
+				if id, ok := l.(*ast.Ident); ok && id.Name == flag {
+					touched = true
+				}
+			}
+		case *ast.UnaryExpr:
+			if id, ok := a.X.(*ast.Ident); ok && a.Op == token.AND && id.Name == flag {
+				touched = true
+			}
+		}
+		return !touched
+	})
+	if touched {
+		return 2, false
+	}
+	return 0, false
+}
+
+type blockFrame struct {
+	stmts []ast.Stmt
+	idx   int
+}
+
+func collectYieldKeep(p *pkgInfo) {
+	var fn *ast.FuncDecl
+	for _, f := range p.files {
+		for _, d := range f.Decls {
+			if fd, ok := d.(*ast.FuncDecl); ok && fd.Name.Name == "syncYield" && fd.Recv != nil && fd.Body != nil {
+				fn = fd
+			}
+		}
+	}
+	if fn == nil {
+		return
+	}
+	where := func(pos token.Pos) string {
+		q := fset.Position(pos)
+		return fmt.Sprintf("%s:%d", filepath.Base(q.Filename), q.Line)
+	}
+	// 1. the deferred clean-up
+	var cleanup *ast.FuncLit
+	var deferPos token.Pos
+	ast.Inspect(fn.Body, func(n ast.Node) bool {
+		if ds, ok := n.(*ast.DeferStmt); ok && cleanup == nil {
+			if fl, ok := ds.Call.Fun.(*ast.FuncLit); ok && containsTableDelete(fl.Body) {
+				cleanup, deferPos = fl, ds.Pos()
+			}
+		}
+		return true
+	})
+	if cleanup == nil {
+		yieldKeep, yieldKeepWhy = "None", "no deferred function literal deleting from the call tables in syncYield"
+		return
+	}
+	// 2. its guard: skipWhen = value of the flag for which the deletes are skipped
+	flag, skipWhen, guarded, unknown := "", false, false, false
+	for _, st := range cleanup.Body.List {
+		if is, ok := st.(*ast.IfStmt); ok && is.Init == nil {
+			n, v, okc := flagCond(is.Cond)
+			onlyReturn := len(is.Body.List) == 1
+			if onlyReturn {
+				_, onlyReturn = is.Body.List[0].(*ast.ReturnStmt)
+			}
+			switch {
+			case okc && onlyReturn && is.Else == nil && !containsTableDelete(is.Body):
+				flag, skipWhen, guarded = n, v, true
+			case okc && is.Else == nil && containsTableDelete(is.Body):
+				flag, skipWhen, guarded = n, !v, true
+			case containsTableDelete(is):
+				unknown = true
+			default:
+				continue
+			}
+			break
+		}
+		if containsTableDelete(st) {
+			break // deletes reached without a guard
+		}
+	}
+	// 3. the "again" returns after the defer
+	var verdicts []string
+	anyAgain, allKeep := false, true
+	var visit func(stmts []ast.Stmt, outer []blockFrame)
+	judge := func(ret *ast.ReturnStmt, frames []blockFrame) {
+		if ret.Pos() < deferPos || len(ret.Results) != 1 {
+			return
+		}
+		v, ok := boolLit(ret.Results[0])
+		if !ok {
+			unknown = true
+			verdicts = append(verdicts, where(ret.Pos())+": result is not a boolean literal")
+			return
+		}
+		if !v {
+			return
+		}
+		anyAgain = true
+		if !guarded {
+			allKeep = false
+			verdicts = append(verdicts, where(ret.Pos())+": returns true (retry) while the deferred clean-up at "+where(deferPos)+" is unconditional")
+			return
+		}
+		for k := len(frames) - 1; k >= 0; k-- {
+			fr := frames[k]
+			for i := fr.idx - 1; i >= 0; i-- {
+				switch how, val := assignsFlag(fr.stmts[i], flag); how {
+				case 1:
+					if val != skipWhen {
+						allKeep = false
+						verdicts = append(verdicts, fmt.Sprintf("%s: returns true (retry) with %s = %v: the deferred clean-up at %s runs", where(ret.Pos()), flag, val, where(deferPos)))
+					}
+					return
+				case 2:
+					unknown = true
+					verdicts = append(verdicts, where(fr.stmts[i].Pos())+": assignment to "+flag+" not followed")
+					return
+				}
+			}
+		}
+		unknown = true
+		verdicts = append(verdicts, where(ret.Pos())+": no assignment to "+flag+" found before it")
+	}
+	visit = func(stmts []ast.Stmt, outer []blockFrame) {
+		for i, st := range stmts {
+			frames := append(append([]blockFrame{}, outer...), blockFrame{stmts, i})
+			switch s := st.(type) {
+			case *ast.ReturnStmt:
+				judge(s, frames)
+			case *ast.BlockStmt:
+				visit(s.List, frames)
+			case *ast.LabeledStmt:
+				visit([]ast.Stmt{s.Stmt}, frames)
+			case *ast.IfStmt:
+				visit(s.Body.List, frames)
+				for e := s.Else; e != nil; {
+					switch x := e.(type) {
+					case *ast.BlockStmt:
+						visit(x.List, frames)
+						e = nil
+					case *ast.IfStmt:
+						visit(x.Body.List, frames)
+						e = x.Else
+					default:
+						e = nil
+					}
+				}
+			case *ast.ForStmt:
+				visit(s.Body.List, frames)
+			case *ast.RangeStmt:
+				visit(s.Body.List, frames)
+			case *ast.SwitchStmt:
+				visit(s.Body.List, frames)
+			case *ast.TypeSwitchStmt:
+				visit(s.Body.List, frames)
+			case *ast.SelectStmt:
+				visit(s.Body.List, frames)
+			case *ast.CaseClause:
+				visit(s.Body, frames)
+			case *ast.CommClause:
+				visit(s.Body, frames)
+			}
+		}
+	}
+	visit(fn.Body.List, nil)
+	switch {
+	case !anyAgain && !unknown:
+		yieldKeep, yieldKeepWhy = "None", "syncYield never returns true after its deferred clean-up (no retry path)"
+	case !allKeep:
+		yieldKeep, yieldKeepWhy = "Some false", strings.Join(verdicts, "; ")
+	case unknown:
+		yieldKeep, yieldKeepWhy = "None", strings.Join(verdicts, "; ")
+	default:
+		yieldKeep = "Some true"
+		yieldKeepWhy = fmt.Sprintf("clean-up deferred at %s is skipped when %s = %v; every return true after it follows %s = %v", where(deferPos), flag, skipWhen, flag, skipWhen)
+	}
+}
+
 // methodsBySig: "name|signature" -> inventory methods, for interface calls.
 var methodsBySig = map[string][]string{}
 
@@ -1573,6 +1857,7 @@ func emit() string {
 	sort.Strings(subs)
 	b.WriteString("Definition gen_submitters : list string := [" + strings.Join(subs, "; ") + "].\n\n")
 	fmt.Fprintf(&b, "Definition gen_send_result_deadline_ms : N := %d.\nDefinition gen_yield_retry_delay_ms : N := %d.\n\n", constMs["sendResultDeadline"], constMs["yieldRetryDelay"])
+	fmt.Fprintf(&b, "(* %s *)\nDefinition gen_yield_retry_keeps_invocation : option bool := %s.\n\n", strings.ReplaceAll(yieldKeepWhy, "*)", "* )"), yieldKeep)
 	fmt.Fprintf(&b, "Definition gen_queue_makes : list (string * string * string) := [\n")
 	for i, m := range makes {
 		sep := ";"
